@@ -8,7 +8,7 @@ from ..syn import es, pat_s
 from ..terms import term_s, subterms
 from ..walk import ctx_s
 from ..facts import atom_s
-from ..parsers import meta_parsers, MetaParserModel, ret_value_kind, _under
+from ..parsers import bool_fields_of_self, switch_of_cond, meta_parsers, MetaParserModel, ret_value_kind, _under
 from ..metafacts import conjuncts
 
 # value classes of the conversion helpers (decided by their acceptance tables in C14; named here)
@@ -203,11 +203,9 @@ def arm_decisions(cx, m, kind):
             if c['k'] == 'if':
                 t = es(c['cond']).replace(' ', '')
                 pol = c['pol']
-                if t.startswith('!'):
-                    t = t[1:]
-                    pol = not pol
-                if t.startswith('self.enable_'):
-                    conds.append((t[len('self.'):], pol))
+                sc_ = switch_of_cond(t, bool_fields_of_self(cx, m.fw.fn))
+                if sc_ is not None:
+                    conds.append((sc_[0], pol != sc_[1]))
                 else:
                     other.append(ctx_s((c,)))
             elif c['k'] == 'arm':
